@@ -116,7 +116,8 @@ namespace nmtools::index
             #else
             const auto neg_reshape_count = count_negative_reshape(dst_shape);
             const auto minus_1_count = nmtools::get<0>(neg_reshape_count);
-            const auto dst_numel = nmtools::get<1>(neg_reshape_count);
+            // NOTE: an empty dst_shape (reshape to 0-dim) has exactly one element
+            const auto dst_numel = (len(dst_shape) == 0) ? (size_t)1 : nmtools::get<1>(neg_reshape_count);
             #endif
 
             if (minus_1_count > 1) {
